@@ -147,6 +147,25 @@ _DB = "constant-shape database: index 7 = {metadata, one tree node, items 1 and 
 K("change_to_same_metric_is_noop", ["C18"], DCF, "prepare_changing_distance to the same metric changes nothing and writes nothing", _DB,
   site="Writer::prepare_changing_distance")
 
+# ---------------------------------------------------------------- E2: search budget (C03)
+def MIRSYM(oid, props, what, bounds, runner, tier="quick", **kw):
+    d = dict(id=oid, engine="mirsym", props=props, files=[], what=what, bounds=bounds, tier=tier, run=runner)
+    d.update(kw)
+    OBLIGATIONS.append(d)
+
+
+def _lazy(mod, fn="obligation"):
+    def run(o, tier, seed):
+        import importlib
+        return getattr(importlib.import_module(mod), fn)(o, tier, seed)
+    return run
+
+
+MIRSYM("search_budget", ["C03"],
+       "the budget nns_by_leaf works with equals search_k.unwrap_or(count (x) n_trees) (x) oversampling.unwrap_or(DEFAULT_OVERSAMPLING) with saturating products, and computing it never panics",
+       "count, search_k, oversampling over the whole usize range; n_trees <= 2^32; DEFAULT_OVERSAMPLING 1..=16; dev (overflow checks on) and release (off) MIR",
+       _lazy("e2_budget"))
+
 PROPS = {}
 
 KANI_NOTE = ("Trusted: Kani/CBMC and rustc MIR semantics; the environment models in /verif/models (heed store, "
@@ -247,6 +266,16 @@ P("C18", "Changing the metric keeps the items and forces a rebuild",
   bounds={"database": "constant shape, 6 entries, dim 3", "pairs": "E->M, E->Dot, Dot->E, E->BQE, BQE->E, BQE->BQM, E->E"},
   outside_claim=["the rebuilt index (C01/C02)", "metric pairs whose new header needs float arithmetic on symbolic data (Cosine norm)"],
   assumptions=["environment models are faithful for the calls arroy makes"])
+P("C03", "Any-budget, filtered search results are well-formed and budget-monotone",
+  "symbolic execution of the rustc MIR of Reader::nns_by_leaf with z3 (budget arithmetic over the whole usize range; traversal over a bounded forest family), plus Kani harnesses for the rejected-query paths",
+  "Bounded symbolic execution of the real MIR: every path of the encoded fragment is enumerated and each assertion is decided by z3 for all values within the bounds.",
+  level_note="Trusted: rustc's MIR as the semantics of the code, z3, the model table of std/roaring/heed calls (lib/mirsym/models.py), std's saturating_mul as an uninterpreted function with its defining axiom; forests outside the bounded shape family are outside the claim.",
+  stubs_and_models=["E2 model table: Option/Result/Try, NonZero, saturating ops (UF + axiom), RoaringBitmap = 16-bit bit-set, ItemIds::len = symbolic root count"],
+  functions_encoded=["Reader::nns_by_leaf", "Reader::nns_by_leaf::{closure#0}", "QueryBuilder::by_vector", "QueryBuilder::by_item"],
+  bounds={"count/search_k/oversampling": "whole usize range", "trees": "<= 2^32"},
+  outside_claim=["numeric accuracy of distances (C11)", "forests beyond the bounded family"],
+  assumptions=["MIR dumped with overflow-checks on = dev profile, off = release profile"])
+claim("C03")
 claim("C12")
 claim("C15")
 claim("C05")
